@@ -11,10 +11,12 @@ SPEC = {
         'name': 'det', 'wrapper': 'wdet.cpp', 'harness': 'h06.c',
         'config': {'stubs': STUBS, 'defines': ['-DCPPUTEST_VERIF_HASH_TABLE_SIZE=4'], 'heapcheck': False},
         'obligations': [{'fn': 'harness_release_%d' % n, 'unwind': 32, 'timeout': 900, 'bounds': B % n} for n in (0, 1, 5, 8)] + [
-            # harness_wrapped_<da>_<df> (whole alloc/release through stacked accounting wrappers): no verdict in 30 min (the accountant's and the wrapper's own
-            # linked lists live in heap objects) - not claimed; the detector's decision reads only actualAllocator(), decided by harness_wrapper_family
-            {'fn': 'harness_wrapper_family', 'unwind': 32, 'timeout': 600, 'bounds': 'accounting wrappers of depth 0, 1, 2 over each of the three families: the family the detector compares'},
             {'fn': 'harness_double_release', 'unwind': 32, 'timeout': 1800, 'tier': 'thorough', 'bounds': 'one block of 4 bytes, family and layout symbolic; release, release again'}],
+    }, {
+        # wrapper allocators: separate wrapper TU (instantiating them next to the detector harnesses makes every dispatch site explode)
+        'name': 'wrap', 'wrapper': 'wwrap.cpp', 'harness': 'h06w.c',
+        'config': {'stubs': STUBS, 'defines': ['-DCPPUTEST_VERIF_HASH_TABLE_SIZE=4'], 'heapcheck': False},
+        'obligations': [{'fn': 'harness_wrapper_family', 'unwind': 32, 'timeout': 600, 'bounds': 'accounting wrappers of depth 0, 1, 2 over each of the three families: the family the detector compares'}],
     }, {
         # plugin level: "the user bytes of a block released through delete, delete[] or free are overwritten BEFORE the memory is returned":
         # the real mem_leak_* / threadsafe_mem_leak_* entry points (harness shared with C10)
